@@ -309,10 +309,19 @@ func Generate(r *gen.Rng) *Schema {
 	nf := 5 + r.Intn(6)
 	var fields []Field
 	used := map[int]bool{}
-	// always include one keyed list and one struct so that histories are interesting
-	must := []int{11, 4, 8}
-	for _, i := range must {
-		used[i] = true
+	// always include one keyed list, one struct and one set so that histories are interesting (looked up by
+	// name: positions in the pool shift when it grows), and half of the time the list with defaulted keys
+	mustNames := []string{"itemList", "point", "numSet"}
+	if r.Fork(55_555).Chance(50) {
+		mustNames = append(mustNames, "itemDList")
+	}
+	for _, nm := range mustNames {
+		for i, ref := range pool {
+			if ref.Named == nm && ref.Rel == "" && ref.Inline == nil {
+				used[i] = true
+				break
+			}
+		}
 	}
 	for len(used) < nf {
 		used[r.Intn(len(pool))] = true
